@@ -17,7 +17,7 @@ from core.transport import Net, Resp, ScriptedDownloader, SyncFileFactory, gen_c
 import apt_mirror.download.slow_rate_protector as srp
 from apt_mirror.download.slow_rate_protector import SlowRateProtectorFactory
 
-EXPECTED = ["C19_bucket_bound", "C19_charge_exact", "C19_legacy_oversize_counterexample", "C19_slow_iff", "C19_not_aborted"]
+EXPECTED = ["C19_bucket_bound", "C19_charge_exact", "C19_legacy_oversize_counterexample", "C19_slow_iff", "C19_not_aborted", "C19_earliest_is_first", "C19_delayed_only_when_full", "C19_not_throttled"]
 LEVEL = "proof"
 RULE = ("rate limit: 1-6 concurrent transfers through the real download_file with the real aiolimiter.AsyncLimiter(60*limit, 60) "
         "under a virtual clock; bodies of 3-40 chunks with sizes below, at and above the bucket capacity (oversize only with <= 2 "
@@ -149,6 +149,7 @@ def rate_one(chk, sseed):
     bodies = {}
     maxchunk = 0
     pattern = []
+    retried = False
     for k in range(ntr):
         nch = rng.randint(3, 12 if oversize else 40) if not throughput else rng.randint(30, 60)
         chunks = []
@@ -165,14 +166,30 @@ def rate_one(chk, sseed):
             chunks.append(c)
         maxchunk = max(maxchunk, max(chunks))
         n = sum(chunks)
-        bodies[f"pool/f{k}.bin"] = [Resp("ok", announced=None, date=None, data=bytes(n), chunks=chunks, tag=k + 1)]
-        pattern.append(tuple(min(3, c * 3 // cap) for c in chunks[:6]))
+        script = []
+        if not throughput and rng.random() < 0.4:
+            # attempts that die after part of the body has been received (mid-stream abort, short body): the bytes they
+            # delivered were accepted from the network and count against the limit like any others; then a good attempt
+            for _ in range(rng.randint(1, 3)):
+                cut = rng.randint(1, len(chunks))
+                part = chunks[:cut]
+                script.append(Resp("ok", announced=rng.choice([None, n]), date=None, data=bytes(sum(part)), chunks=part,
+                                   abort=rng.random() < 0.7, tag=k + 1))
+            retried = True
+        script.append(Resp("ok", announced=None, date=None, data=bytes(n), chunks=chunks, tag=k + 1))
+        bodies[f"pool/f{k}.bin"] = script
+        pattern.append(tuple(min(3, c * 3 // cap) for c in chunks[:6]) + (len(script),))
     log, lim, net, d, vt = run_transfers(limit, bodies, rng.randrange(1 << 30))
     replay = {"scenario_seed": sseed, "limit": limit, "transfers": ntr, "oversize": oversize}
     total = sum(x[1] for x in log)
-    expect = sum(len(v[0].data) for v in bodies.values())
+    # bytes of the responses that were actually served (an attempt that ends without error and without a declared size is
+    # accepted, so later scripted responses may never be requested)
+    nreq = {k: sum(1 for u in net.log if u.endswith("/" + k)) for k in bodies}
+    expect = sum(len(r.data) for k, v in bodies.items() for r in v[:nreq[k]])
     if d._error_count or d._missing_count or total != expect:
         chk.violation("rate-limited-transfer-fails", replay, f"errors={d._error_count} missing={d._missing_count} bytes {total}/{expect}")
+    if retried:
+        chk.count("rate_scenarios_with_retried_transfers")
     w = check_windows(log, limit, maxchunk)
     if w:
         sig = ("window-bound:oversize-chunks:concurrent" if ntr > 1 else "window-bound:oversize-chunks:single") if oversize else "window-bound"
@@ -183,12 +200,13 @@ def rate_one(chk, sseed):
         chk.violation("correspondence-bucket-contract", dict(replay, disagreement=c, correspondence="Model/Rate.lean Bucket.grant vs aiolimiter grants"), c, no_input=True)
     # charged amounts per chunk: compare with the model's `charge`
     if oversize:
-        sizes = sorted({c for v in bodies.values() for c in v[0].chunks if c > cap})[:3]
+        sizes = sorted({c for v in bodies.values() for c in v[-1].chunks if c > cap})[:3]
         m = driver().call("rate", slow=[], charge=[[cap, s] for s in sizes])
         chk.count("oversize_chunk_sizes_checked", len(sizes))
-        granted = sum(a for _, a in lim.grants)
-        if granted != expect:
-            chk.violation("undercharged", replay, f"{expect} bytes accepted but only {granted} charged to the limiter")
+    granted = sum(a for _, a in lim.grants)
+    if granted != total:
+        chk.violation("undercharged" + (":retried-transfer" if retried and not oversize else ""), replay,
+                      f"{total} bytes accepted (written) but {granted} charged to the limiter")
     # not under-throttled: ONE transfer with chunks well below the capacity must proceed at the limit once the initial
     # burst allowance is used up (aiolimiter waits amount/rate per retry, so chunks near the capacity waste up to one
     # chunk time per transition; that is the third-party limiter's policy and is not judged here)
@@ -197,7 +215,7 @@ def rate_one(chk, sseed):
         if vt - 1000.0 > allowed:
             chk.violation("under-throttled", replay, f"{expect} bytes took {vt - 1000.0:.1f}s virtual, the limit allows {allowed:.1f}s")
         chk.count("throughput_checks")
-    chk.evaluated((limit, tuple(pattern), ntr), sample={"limit": limit, "transfers": ntr, "chunks": [v[0].chunks[:5] for v in bodies.values()][:2],
+    chk.evaluated((limit, tuple(pattern), ntr), sample={"limit": limit, "transfers": ntr, "chunks": [v[-1].chunks[:5] for v in bodies.values()][:2],
                                                          "bytes": expect, "virtual_seconds": round(vt - 1000.0, 2), "grants": len(lim.grants)})
     chk.count("accept_events", len(log))
     chk.traces += 1
